@@ -82,6 +82,16 @@ func parseC05Hist(op string) (c05Hist, bool) {
 		if len(f) != 3 || !c05in(c05HCarriers, f[0]) || !c05in(c05HSCerts, f[2]) {
 			return h, false
 		}
+		if part, special, ok := c05HostTok(f[1]); !ok {
+			return h, false
+		} else if special {
+			// host forms (c05_hostforms.go); the shared servers of a history listen on 127.0.0.1
+			if _, okURL := c05PassedHost(part, "4443"); !okURL || f[0] == "stdin+tls" || (f[0] != "pipe" && c05BindHost(part) == "[::1]") {
+				return h, false
+			}
+			h.atts = append(h.atts, c05HAttempt{f[0], f[1], f[2]})
+			continue
+		}
 		switch f[0] {
 		case "pipe":
 			if f[1] == "" || strings.ContainsAny(f[1], ":/[]") || f[1] == "-" {
@@ -106,7 +116,20 @@ func (h c05Hist) serverAcceptable(a c05HAttempt) bool {
 		return false
 	}
 	signer, names, expired := c05ServerCertAttrs(a.scert)
-	return h.cca == "A" && signer == "A" && !expired && c05in(names, a.host)
+	part, _, _ := c05HostTok(a.host)
+	return h.cca == "A" && signer == "A" && !expired && c05HostAcceptable(names, part)
+}
+
+// authority of the attempt's upstream URL / the host string a pipe upstream passes
+func (a c05HAttempt) authority(port string) string {
+	part, _, _ := c05HostTok(a.host)
+	return c05Authority(part, port)
+}
+
+func (a c05HAttempt) passed() string {
+	part, _, _ := c05HostTok(a.host)
+	h, _ := c05PassedHost(part, "4443")
+	return h
 }
 
 func (h c05Hist) clientAcceptable() bool { return c05ClientCertAcceptable(h.ccert) && h.sca == "A" }
@@ -253,7 +276,7 @@ func (s *c05HServers) upstreamFor(a c05HAttempt) (upstream.Upstream, error) {
 	switch a.carrier {
 	case "pipe":
 		if a.scert == "dead" {
-			return &c05HistPipe{host: a.host + ":4443"}, nil
+			return &c05HistPipe{host: a.passed()}, nil
 		}
 		cfg := s.pipeCfg[a.scert]
 		if cfg == nil {
@@ -261,7 +284,7 @@ func (s *c05HServers) upstreamFor(a c05HAttempt) (upstream.Upstream, error) {
 			cfg = &c
 			s.pipeCfg[a.scert] = cfg
 		}
-		return &c05HistPipe{host: a.host + ":4443", srvCfg: cfg, channels: s.channels}, nil
+		return &c05HistPipe{host: a.passed(), srvCfg: cfg, channels: s.channels}, nil
 	case "tcp", "tcp+tls":
 		port := s.ports[key]
 		if a.scert == "dead" {
@@ -281,7 +304,7 @@ func (s *c05HServers) upstreamFor(a c05HAttempt) (upstream.Upstream, error) {
 			_, port, _ = net.SplitHostPort(st.VerifC05ListenerAddr().String())
 			s.ports[key] = port
 		}
-		cu, _ := url.Parse(a.carrier + "://" + a.host + ":" + port)
+		cu, _ := url.Parse(a.carrier + "://" + a.authority(port))
 		return &upstream.Socket{Address: addr.ProtoAddress{URL: *cu}}, nil
 	case "wss":
 		port := s.ports[key]
@@ -308,7 +331,7 @@ func (s *c05HServers) upstreamFor(a c05HAttempt) (upstream.Upstream, error) {
 			s.closers = append(s.closers, func() { _ = hs.Shutdown() })
 			s.ports[key] = port
 		}
-		cu, _ := url.Parse("wss://" + a.host + ":" + port + "/ws")
+		cu, _ := url.Parse("wss://" + a.authority(port) + "/ws")
 		return &upstream.Http{Address: addr.ProtoAddress{URL: *cu}}, nil
 	case "stdin+tls":
 		x, y := newBufPipe()
@@ -447,7 +470,11 @@ func (tlshistComp) exec1(op string, deadline time.Duration) (string, string, str
 	earlierEst := false
 	for i, a := range h.atts {
 		r := recs[i]
-		tag := fmt.Sprintf("attempt %d (%s://%s, certificate %s)", i+1, a.carrier, a.host, a.scert)
+		shown := a.host
+		if part, special, _ := c05HostTok(a.host); special {
+			shown = part + ":<port>" // the host part as the user wrote it
+		}
+		tag := fmt.Sprintf("attempt %d (%s://%s, certificate %s)", i+1, a.carrier, shown, a.scert)
 		if !r.tried {
 			out = append(out, "skip:none:0")
 			cls = append(cls, "skip")
@@ -491,7 +518,7 @@ func (tlshistComp) exec1(op string, deadline time.Duration) (string, string, str
 			if !stdio && r.isv != h.insecure {
 				mons[n-1] += fmt.Sprintf(" [InsecureSkipVerify=%v was handed to crypto/tls, the insecure option is %v]", r.isv, h.insecure)
 			}
-			if (a.carrier == "pipe" || a.carrier == "tcp" || a.carrier == "tcp+tls") && r.name != a.host {
+			if (a.carrier == "pipe" || a.carrier == "tcp" || a.carrier == "tcp+tls") && r.name != a.host && !strings.HasPrefix(a.host, "=") {
 				mons[n-1] += fmt.Sprintf(" [ServerName %q was handed to crypto/tls]", r.name)
 			}
 		}
@@ -549,6 +576,34 @@ func (tlshistComp) Gen(r *Rand, tier string, emit func(string)) {
 			// list form for every pair, the model says which are skipped
 			emit("list " + base + " " + a + " " + b)
 		}
+	}
+	// host forms for which the derived server name is empty or not a plain host name (c05_hostforms.go): each as the
+	// only attempt, after a stdin+tls attempt (which switches verification off in ITS config) and before / after an
+	// attempt to a plainly named host, against trusted+matching and foreign-CA servers
+	hf := func(carrier, part, scert string) string { return carrier + "," + c05SpecialTok(part) + "," + scert }
+	var forms []string
+	for _, part := range []string{"", "LOCALHOST", "[::ffff:127.0.0.1]", "0.0.0.0", "user@localhost", "user@"} {
+		for _, carrier := range []string{"tcp", "tcp+tls"} {
+			for _, sc := range []string{"good", "untrusted"} {
+				forms = append(forms, hf(carrier, part, sc))
+			}
+		}
+	}
+	for _, part := range []string{"", "[::1]", "::1", "[::1%lo]", "localhost.", "SERVER.TEST"} {
+		for _, sc := range []string{"good", "untrusted"} {
+			forms = append(forms, hf("pipe", part, sc))
+		}
+	}
+	if tier == "thorough" {
+		for _, part := range []string{"", "LOCALHOST", "user@"} {
+			forms = append(forms, hf("wss", part, "good"), hf("wss", part, "untrusted"))
+		}
+	}
+	for _, f := range forms {
+		emit("seq " + base + " " + f)
+		emit("seq " + base + " stdin+tls,-,good " + f)
+		emit("list " + base + " tcp+tls,127.0.0.1,dead " + f)
+		emit("seq " + base + " " + f + " tcp+tls,localhost,good")
 	}
 	// client certificates at the validity boundary, towards servers that demand one: every class
 	// through two attempts of different kinds (the second is reached in both modes only when the
